@@ -868,6 +868,30 @@ class InterpBuiltins:
                 return unfold(s0, fuel - 1) + z3.If(s0[e], z3.IntVal(0), z3.substitute(wt, (x, e)))
             return f(c, *params)
         return SV(unfold(chi, 8), INT)
+    def bi_duplicate_free(self, args, kw, line):
+        """spec: duplicate_free(l) - the heap list l holds no element twice (forall a < b < len(l): l[a] != l[b]).
+        The pairwise formula costs a quadratic number of instantiations (one per pair of index terms of the row); it is
+        therefore DEFINED through a fresh Bool P with, for fresh symbols idx / a0 / b0,
+            P      => forall j in range: idx(l[j]) == j        (an index function exists: one instance per index term)
+            not P  => 0 <= a0 < b0 < len(l) and l[a0] == l[b0] (a witness pair)
+        which fixes P <=> pairwise (conservative extension: idx, a0, b0 occur nowhere else).  Not available under a
+        binder (the fresh symbols would have to depend on the bound variables)."""
+        l = args[0]
+        if not isinstance(l, ListV) or l.ref is None:
+            raise Unsupported('duplicate_free(heap list)')
+        if getattr(self, 'qdepth', 0) or self.generic_scopes:
+            raise Unsupported('duplicate_free under a quantifier / comprehension binder')
+        n = self.list_len(l)
+        row = self.list_data(l)[1][l.ref]
+        self.run.fresh_n += 1
+        tag = self.run.fresh_n
+        p = z3.Const(f'dupfree!{tag}', B)
+        idx = z3.Function(f'dfidx!{tag}', sort_of(l.ety), I)
+        a0, b0, j = z3.Const(f'dfa!{tag}', I), z3.Const(f'dfb!{tag}', I), z3.Const('j!df', I)
+        self.run.assume(z3.Implies(p, z3.ForAll([j], z3.Implies(z3.And(0 <= j, j < n), idx(row[j]) == j),
+                                                patterns=[row[j]])), silent=True)
+        self.run.assume(z3.Or(p, z3.And(0 <= a0, a0 < b0, b0 < n, row[a0] == row[b0])), silent=True)
+        return self.bool_value(p)
 
     def bi_order_len(self, args, kw, line):
         """spec: number of positions of the insertion order of dict d (= number of keys)"""
